@@ -1,164 +1,346 @@
 """C01 Wick evaluation: contraction table, recursion bookkeeping, prefilter
-soundness, rule application."""
+soundness, rule application - all decided on abstractly *evaluated* code
+(sa.symex), compared with expectations that are written down independently
+(a brute-force Fermi-vacuum expectation value in a small Fock space, the set of
+signed complete pairings, a bipartite matching oracle, decision tables)."""
 from __future__ import annotations
 
-import ast
 import itertools
+from fractions import Fraction
 
-from ..abseval import Interp, Rec, Sym, klass
-from ..model import (AnalysisError, U, calls_in, call_name, walk_fn, kwarg,
-                     names_in, Defs)
-from ..pathcond import conditions
-from . import common
+from ..model import AnalysisError
+from ..symex import Symex, Obj, ClassRef
+from ..terms import (T, sym, t_mul, t_add, t_cmp, is_num, strip, expand_products, subterms, args_of, show, multiset,
+                     multiset_diff)
 
 EXPLANATION = (
-    "R01a: complete 36-row decision table of func._contraction extracted from "
-    "its if-tree over (operator kind x space)^2 and compared with the oracle "
-    "table of the particle/hole contraction (fresh virt/occ index for two "
-    "general indices; spin refused). R01b: _contract_operator_string "
-    "interpreted on symbolic operator tokens (n=2,4,6,8): every complete "
-    "pairing exactly once with sign (-1)^crossings. R01c: "
-    "_has_fully_contracted_contribution evaluated over all 729 counter "
-    "vectors in {0,1,2}^6: it may answer False only if the creator/"
-    "annihilator compatibility graph has no perfect matching. R01d: "
-    "Rules.apply drops a term exactly under (name forbidden AND block "
-    "forbidden) for some object and adds every other term once; wicks "
-    "multiplies the commuting part back and routes every Mul result through "
-    "rules.apply.")
+    "Every function is evaluated by the abstract evaluator (sa.symex) on small abstract inputs; no verdict depends on "
+    "source spelling (anchors: the functions wicks, _contract_operator_string, _contraction, "
+    "_has_fully_contracted_contribution, Rules.apply, Rules.is_empty, their parameters, and the sympy/adcgen "
+    "vocabulary they call). Branch conditions over symbolic values are decided by an oracle over the scenario's value "
+    "domain (generic non-zero numbers), so `c is S.Zero`, `c == 0`, `not c` are the same test. "
+    "R01a: func._contraction evaluated on all 36 (operator kind x space)^2 rows plus the rows with a shared index; "
+    "the returned delta expression is evaluated numerically for every assignment of the orbitals of a 2 occ + 2 virt "
+    "model to the indices (a fresh index is summed over its space) and must equal <Phi|p q|Phi> computed by applying "
+    "the operators to the reference determinant; a row whose expectation value vanishes identically must return the "
+    "canonical zero (the recursion prunes on it); spin-labelled and non-fermionic operators must be refused. "
+    "R01b: _contract_operator_string evaluated on operator tokens (n=2,4,6; 8 thorough) with the contraction left "
+    "symbolic: the result, expanded into products, is every complete pairing exactly once with sign (-1)^crossings, "
+    "the first argument of a contraction being the left operator; bookkeeping by position for repeated (equal) "
+    "operators; vanishing contractions remove exactly the pairings that contain them (n=4, n=6). R01c: "
+    "_has_fully_contracted_contribution evaluated over all 729 counter vectors in {0,1,2}^6, creators first and "
+    "reversed (thorough: also interleaved): it may answer False only if the creator/annihilator compatibility graph "
+    "has no perfect matching. R01d: Rules.apply evaluated on three rule sets with several tensors on an expression "
+    "enumerating all (name, block) combinations of one and two objects (156 terms each): the result is Expr(0) "
+    "carrying the assumptions of the input plus exactly the terms without an object whose name is restricted AND whose "
+    "block is excluded for that name, each once; empty rules (None, {}) return the input; non-Expr input refused; "
+    "Rules.is_empty truth table; wicks evaluated on abstract sympy expressions (NO / bare operator, Add, Mul with "
+    "0/1/2/4 operators and 0/2 commuting factors, symbol, tensor) x (rules None/given) x (delta flag): the result is "
+    "[rules.apply(Expr(.)).sympy] [evaluate_deltas(., target_idx=None)] (commuting part x "
+    "_contract_operator_string(operators in order)) with a type discipline on the layers (Expr wraps a plain object "
+    "without assumptions, apply maps container to container outside the delta evaluation, a plain object is "
+    "returned), zero for a single operator / NO / bare operator, the term-wise sum of wicks(term, same rules, same "
+    "flag) for Add, doit(wicks=True) before the case split, foreign rules objects refused. R01e: the whole pipeline "
+    "wicks -> _contract_operator_string -> prefilter -> _contraction evaluated end to end on A * operator string "
+    "(all 6+36+216+1296 strings of one to four operators over kind x space, strings with repeated operators or "
+    "indices, six operators in a 3+3 orbital model) and compared numerically with 3 * the brute-force expectation "
+    "value for every orbital assignment.")
 ASSUMPTIONS = [
-    "sympy's NO.doit(wicks=True)/expand and KroneckerDelta algebra are trusted",
-    "decides structural clauses only; the value of the Wick expansion for "
-    "every orbital assignment is not decided",
+    "sympy's NO.doit(wicks=True)/expand, Mul/Add and KroneckerDelta algebra are trusted (modelled as doit/expand "
+    "giving a sum of products, Mul/Add as product/sum, KroneckerDelta(i, j) as [orbital(i) == orbital(j)], S.Zero as "
+    "0); the short cut NO -> 0 is required as written (its removal would rely on sympy's bracket removal)",
+    "equality with the Fermi-vacuum expectation value is decided for operator strings of at most 4 (a few of 6 and "
+    "8) operators in a model with 2 (3) occupied and 2 (3) virtual orbitals; longer strings are covered structurally "
+    "by R01b (signed pairings up to n=8) only",
+    "a fresh Index created by the contraction of two general indices is taken to be summed over its space "
+    "(above_fermi/below_fermi); its name is not checked",
+    "evaluate_deltas and Rules.apply are uninterpreted inside wicks (evaluate_deltas itself is not decided here, "
+    "Rules.apply by its own decision table); inside wicks a string with an odd number of operators is taken to have "
+    "no complete contraction (decided for the code by R01c/R01e)",
+    "not required any more: that _contract_operator_string *consults* the prefilter (an optimisation without "
+    "influence on the value: R01c decides its soundness, R01e the composed result) and the source-level shape of "
+    "the commuting/non-commuting partition loop (decided through the evaluated product instead)",
 ]
 
-ZERO = Sym("Zero")
-S = Rec("S", Zero=ZERO, NegativeOne=-1, One=1)
+FUNC = "func"
+KINDS = ("F", "Fd")
+SPACES = ("occ", "virt", "general")
+TRANSPARENT_MCALLS = ("expand",)
 
 
-def _op(kind, space, spin="", tag=None):
-    idx = Rec("Index", space=space, spin=spin, name=tag or space[0])
-    classes = (kind, "FermionicOperator") if kind in ("F", "Fd") else (kind,)
-    return Rec("op", _classes=classes, args=[idx],
-               state=idx, kind=kind, idx=idx)
+# ---------------------------------------------------------------------------
+# abstract values
 
 
-def _delta(i, a, kw):
-    return Sym("delta", a)
+class _Op(Obj):
+    """Operator token: two tokens are equal iff their labels are (sympy operators compare by value)."""
+
+    def __eq__(self, o):
+        return isinstance(o, _Op) and o.attrs["label"] == self.attrs["label"]
+
+    def __ne__(self, o):
+        return not self.__eq__(o)
+
+    def __hash__(self):
+        return hash(self.attrs["label"])
 
 
-def _index(i, n, a, kw):
-    return Rec("FreshIndex", name=a[0] if a else None, kwargs=dict(kw),
-               space=("virt" if kw.get("above_fermi") else
-                      "occ" if kw.get("below_fermi") else "general"), spin="")
+def _index(name, space, spin=""):
+    o = Obj(None, name, space=space, spin=spin)
+    o.attrs["name"] = name
+    return o
 
 
-def _flatten_mul(v):
-    if isinstance(v, Sym) and v.name == "Mul":
-        out = []
-        for a in v.args:
-            out += _flatten_mul(a)
-        return out
-    return [v]
+def _operator(kind, idx, pos=None, label=None):
+    alias = {"F": ("AnnihilateFermion", "Annihilator"), "Fd": ("CreateFermion", "Creator")}
+    classes = (kind,) + alias[kind] + ("FermionicOperator", "SqOperator", "Expr", "Basic") if kind in KINDS else (kind,)
+    return _Op(None, f"{kind}[{idx.attrs['name']}]" + ("" if pos is None else f"@{pos}"), _classes=classes, args=[idx],
+               state=idx, label=label if label is not None else (kind, idx.attrs["name"]), pos=pos, is_commutative=False,
+               is_number=False)
+
+
+def _tensor(name):
+    return Obj(None, name, _classes=("AntiSymmetricTensor", "Expr", "Basic"), is_commutative=True, is_number=False,
+               args=[])
+
+
+def _term(x):
+    return x.term if isinstance(x, Obj) else x
+
+
+def _S():
+    return Obj(None, "S", Zero=0, One=1, NegativeOne=-1, Half=Fraction(1, 2))
+
+
+def _hooks(**extra):
+    """Model of the sympy primitives the Wick code builds its results from."""
+    def index(sx, a, kw):
+        flags = sorted(k for k, v in kw.items() if v)
+        space = {(): "general", ("above_fermi",): "virt", ("below_fermi",): "occ"}.get(tuple(flags), "?" + ",".join(flags))
+        sx.fresh_n += 1
+        return T("fresh", sx.fresh_n, space)
+
+    def delta(sx, a, kw):
+        if len(a) != 2 or kw:
+            return NotImplemented
+        return T("delta", _term(a[0]), _term(a[1]))
+
+    def add(sx, a, kw):
+        return t_add(*[_term(x) for x in a])
+
+    def mul(sx, a, kw):
+        return t_mul(*[_term(x) for x in a])
+
+    h = {"S": _S(), "Index": index, "KroneckerDelta": delta, "Add": add, "Mul": mul}
+    h.update(extra)
+    return h
+
+
+def _inline_except(*vocab):
+    return lambda q: q not in vocab
+
+
+def _assume_not_none(*names):
+    """An abstract record is not None (the evaluator would otherwise fork on ``x is None``)."""
+    def start(sx):
+        for n in names:
+            sx.assume(T("cmp", "is", *sorted((sym(n), None), key=repr)), False)
+    return start
+
+
+def _returns(outs, what):
+    """Values of all paths; a scenario on concrete abstract values normally has exactly one."""
+    if not outs:
+        raise AnalysisError(f"C01: no path through {what}")
+    return outs
+
+
+# ---------------------------------------------------------------------------
+# the independent oracle: expectation value in a small Fock space
+
+
+def _orbitals(n):
+    return {"occ": list(range(n)), "virt": list(range(n, 2 * n)), "general": list(range(2 * n))}
+
+
+def _vev(ops, nocc):
+    """<Phi| o_1 o_2 ... o_n |Phi> for ops = [(kind, orbital), ...] (left to right), Phi = orbitals < nocc occupied;
+    F annihilates, Fd creates; computed by applying the operators to the determinant (no Wick theorem involved)."""
+    occ = set(range(nocc))
+    sign = 1
+    for kind, o in reversed(ops):
+        below = sum(1 for x in occ if x < o)
+        if kind == "F":
+            if o not in occ:
+                return 0
+            occ.remove(o)
+        else:
+            if o in occ:
+                return 0
+            occ.add(o)
+        if below % 2:
+            sign = -sign
+    return sign if occ == set(range(nocc)) else 0
+
+
+class _Uneval(Exception):
+    pass
+
+
+def _prepare(v, orbs):
+    """Products of an evaluated, operator-free result with the fresh indices each of them sums over."""
+    v = strip(_term(v), mcalls=TRANSPARENT_MCALLS)
+    out = []
+    for c, fs in expand_products(v):
+        fresh = sorted({x for f in fs for x in subterms(f) if x.op == "fresh"}, key=repr)
+        for x in fresh:
+            if x.args[1] not in orbs:
+                raise _Uneval(f"fresh index with the assumptions {x.args[1]}")
+        out.append((Fraction(c), fs, fresh))
+    return out
+
+
+def _value(prods, asg, orbs):
+    """Number the result stands for: ``asg`` maps index names to orbitals and tensor symbols to numbers; every
+    fresh index is summed over the orbitals of its space within the product it occurs in."""
+    total = Fraction(0)
+    for c, fs, fresh in prods:
+        for combo in itertools.product(*[orbs[x.args[1]] for x in fresh]):
+            loc = dict(zip(fresh, combo))
+            p = c
+            for f in fs:
+                p *= _factor(f, asg, loc)
+                if p == 0:
+                    break
+            total += p
+    return total
+
+
+def _factor(f, asg, loc):
+    if is_num(f):
+        return Fraction(f)
+    if isinstance(f, T):
+        if f.op == "delta":
+            return Fraction(1 if _orb(f.args[0], asg, loc) == _orb(f.args[1], asg, loc) else 0)
+        if f.op == "sym" and f.args[0] in asg:
+            return Fraction(asg[f.args[0]])
+        if f.op == "pow" and isinstance(f.args[1], int) and f.args[1] >= 0:
+            return _factor(f.args[0], asg, loc) ** f.args[1]
+        if f.op in ("mul", "add"):
+            sub = [(c, [_factor(x, asg, loc) for x in fs]) for c, fs in expand_products(f)]
+            tot = Fraction(0)
+            for c, xs in sub:
+                p = Fraction(c)
+                for x in xs:
+                    p *= x
+                tot += p
+            return tot
+    raise _Uneval(f"factor `{show(f)[:120]}` is not a number, a Kronecker delta of operator indices or a known tensor")
+
+
+def _orb(x, asg, loc):
+    if isinstance(x, T) and x.op == "fresh":
+        return loc[x]
+    if isinstance(x, T) and x.op == "sym" and x.args[0] in asg:
+        return asg[x.args[0]]
+    raise _Uneval(f"Kronecker delta on `{show(x)[:80]}`, which is neither an operator index nor a fresh index")
+
+
+def _compare_numeric(value, ops, norb, factor=1, tensors=None):
+    """First orbital assignment on which the evaluated result differs from the expectation value (None if equal).
+    ``ops`` = [(kind, index name, space)]; equal index names share the orbital."""
+    orbs = _orbitals(norb)
+    names = []
+    for _, nm, sp in ops:
+        if (nm, sp) not in names:
+            names.append((nm, sp))
+    try:
+        prods = _prepare(value, orbs)
+    except _Uneval as e:
+        return f"result cannot be evaluated: {e}"
+    for combo in itertools.product(*[orbs[sp] for _, sp in names]):
+        asg = {nm: o for (nm, _), o in zip(names, combo)}
+        want = factor * _vev([(k, asg[nm]) for k, nm, _ in ops], norb)
+        full = dict(asg)
+        full.update(tensors or {})
+        try:
+            got = _value(prods, full, orbs)
+        except _Uneval as e:
+            return f"result cannot be evaluated: {e}"
+        if got != want:
+            return (f"orbitals {asg} (occupied: 0..{norb - 1}, virtual: {norb}..{2 * norb - 1}): result has the value {got}, "
+                    f"the expectation value is {want}")
+    return None
+
+
+# ---------------------------------------------------------------------------
+# R01a
 
 
 def r01a(ctx):
-    fn = ctx.model.fn("func:_contraction")
-    env = {"F": klass("F"), "Fd": klass("Fd"),
-           "FermionicOperator": klass("FermionicOperator"), "S": S,
-           "KroneckerDelta": lambda i, n, a, kw: Sym("delta", a),
-           "Index": _index}
-    spaces = ["occ", "virt", "general"]
+    rule = "R01a"
+    fn = ctx.model.fn(f"{FUNC}:_contraction")
     n = 0
-    for kp, kq, sp, sq in itertools.product(["F", "Fd"], ["F", "Fd"], spaces, spaces):
-        p, q = _op(kp, sp, tag="p"), _op(kq, sq, tag="q")
-        kind, val = Interp(env, what="_contraction").call(fn, {"p": p, "q": q})
-        n += 1
-        label = f"({kp}_{sp}, {kq}_{sq})"
-        # oracle
-        if (kp, kq) == ("F", "Fd"):
-            kill, fresh_kw = "occ", "above_fermi"
-            keep = "virt"
-        elif (kp, kq) == ("Fd", "F"):
-            kill, fresh_kw = "virt", "below_fermi"
-            keep = "occ"
-        else:
-            kill = None
-        if kill is None or sp == kill or sq == kill:
-            want = "zero"
-        elif sp == keep or sq == keep:
-            want = "delta"
-        else:
-            want = "delta*delta(fresh)"
-        got = "?"
-        if kind == "raise":
-            got = f"raise {val}"
-        elif val is ZERO:
-            got = "zero"
-        else:
-            fs = _flatten_mul(val)
-            ds = [f for f in fs if isinstance(f, Sym) and f.name == "delta"]
-            if len(fs) == len(ds) == 1 and {id(x) for x in ds[0].args} == {id(p.idx), id(q.idx)}:
-                got = "delta"
-            elif len(fs) == len(ds) == 2:
-                main = [d for d in ds if {id(x) for x in d.args} == {id(p.idx), id(q.idx)}]
-                other = [d for d in ds if d not in main]
-                if len(main) == 1 and len(other) == 1:
-                    o = other[0].args
-                    fresh = [x for x in o if isinstance(x, Rec) and x.tag == "FreshIndex"]
-                    old = [x for x in o if x is p.idx or x is q.idx]
-                    if len(fresh) == 1 and len(old) == 1:
-                        kwf = {k for k, v in fresh[0].attrs["kwargs"].items() if v}
-                        if kwf == {fresh_kw}:
-                            got = "delta*delta(fresh)"
-                        else:
-                            got = f"delta*delta(fresh with {sorted(kwf)})"
-            if got == "?":
-                got = repr(val)
-        ctx.check("R01a", fn, got == want,
-                  f"{label} -> {got}", f"contraction table row {label}: code gives "
-                  f"{got}, the Fermi-vacuum contraction is {want}",
-                  key=f"row {label}")
+    for kp, kq, sp, sq in itertools.product(KINDS, KINDS, SPACES, SPACES):
+        for shared in ((False, True) if sp == sq else (False,)):
+            def mk():
+                i = _index("p", sp)
+                j = i if shared else _index("q", sq)
+                return _operator(kp, i), _operator(kq, j)
+            outs = _contraction_outs(ctx, mk)
+            label = f"({kp}_{sp}, {kq}_{sq})" + (" same index" if shared else "")
+            ops = [(kp, "p", sp), (kq, "p" if shared else "q", sq)]
+            why = None
+            for o in outs:
+                if o.kind != "return":
+                    why = f"raises {o.exc}"
+                    break
+                why = _compare_numeric(o.value, ops, 2)
+                if why:
+                    why = f"returns {show(_term(o.value))[:160]}; {why}"
+                    break
+            n += 1
+            ctx.check(rule, fn, why is None, f"{label}: value equals <Phi|p q|Phi> for every orbital assignment",
+                      f"contraction table row {label}: {why}", key=f"row {label}")
+            # canonical zero: the recursion prunes on it and an un-evaluated delta_{occ,virt} would survive when the
+            # delta evaluation is not requested
+            orbs = _orbitals(2)
+            vanishes = all(_vev([(kp, a), (kq, a if shared else b)], 2) == 0 for a in orbs[sp] for b in orbs[sq])
+            if vanishes and why is None:
+                vals = [_term(o.value) for o in outs]
+                ctx.check(rule, fn, all(is_num(v) and v == 0 for v in vals), f"{label}: identically vanishing row returns zero",
+                          f"contraction table row {label}: the expectation value vanishes for every orbital assignment, but the "
+                          f"code returns the expression {show(vals[0])[:160]} instead of zero", key=f"zero {label}")
     # spin-labelled operators must be refused, non-operators too
     for which in ("p", "q"):
-        p = _op("F", "virt", spin="a" if which == "p" else "")
-        q = _op("Fd", "virt", spin="a" if which == "q" else "")
-        kind, val = Interp(env, what="_contraction").call(fn, {"p": p, "q": q})
-        ctx.check("R01a", fn, kind == "raise" and val == "NotImplementedError",
-                  f"spin on {which} refused", f"operator with spin on {which} is "
-                  f"not refused ({kind} {val})", key=f"spin {which}")
+        def mk():
+            return (_operator("F", _index("p", "virt", "a" if which == "p" else "")),
+                    _operator("Fd", _index("q", "virt", "a" if which == "q" else "")))
+        outs = _contraction_outs(ctx, mk)
+        ctx.check(rule, fn, all(o.kind == "raise" and o.exc == "NotImplementedError" for o in outs),
+                  f"spin on {which} refused", f"operator with spin on {which} is not refused ({outs[0]})", key=f"spin {which}")
     for which in ("p", "q"):
-        p = _op("F" if which == "q" else "Other", "virt")
-        q = _op("Fd" if which == "p" else "Other", "virt")
-        kind, val = Interp(env, what="_contraction").call(fn, {"p": p, "q": q})
-        ctx.check("R01a", fn, kind == "raise", f"non-operator {which} refused",
+        def mk():
+            return (_operator("F" if which == "q" else "Other", _index("p", "virt")),
+                    _operator("Fd" if which == "p" else "Other", _index("q", "virt")))
+        outs = _contraction_outs(ctx, mk)
+        ctx.check(rule, fn, all(o.kind == "raise" for o in outs), f"non-operator {which} refused",
                   f"non fermionic operator {which} accepted", key=f"nonop {which}")
-    return n
+    ctx.floor(rule, "rows of the contraction table", n, 36)
 
 
-# ------------------------------------------------------------------ R01b
+def _contraction_outs(ctx, mk):
+    sx = Symex(ctx.model, inline=_inline_except(), hooks=_hooks(), what="_contraction")
+    sx.oracle = _Generic(lambda t: t.op == "delta")
+
+    def args():
+        p, q = mk()
+        return dict(p=p, q=q)
+    return _returns(sx.run(f"{FUNC}:_contraction", args), "_contraction")
 
 
-def _expand(v):
-    """symbolic result -> list of (sign, tuple of pairs)"""
-    if v is ZERO or v == 0:
-        return []
-    if isinstance(v, int):
-        return [(v, ())]
-    if isinstance(v, Sym):
-        if v.name == "c":
-            return [(1, (v.args,))]
-        if v.name == "Add":
-            out = []
-            for a in v.args:
-                out += _expand(a)
-            return out
-        if v.name == "Mul":
-            out = [(1, ())]
-            for a in v.args:
-                ea = _expand(a)
-                out = [(s1 * s2, p1 + p2) for s1, p1 in out for s2, p2 in ea]
-            return out
-    raise AnalysisError(f"R01b: unexpected symbolic shape {v!r}")
+# ---------------------------------------------------------------------------
+# R01b
 
 
 def _pairings(items):
@@ -180,92 +362,135 @@ def _crossings(pairs):
     return c
 
 
+def _pair_products(ctx, labels, zero_pairs=frozenset()):
+    """_contract_operator_string on tokens with the contraction symbolic: list of (coefficient, sorted pairs)."""
+    n = len(labels)
+    csym = {(i, j): sym(f"c{i}_{j}") for i in range(n) for j in range(n) if i != j}
+    back = {v: k for k, v in csym.items()}
+
+    def contraction(sx, a, kw):
+        b = sx.bind(fn_c, a, kw)
+        x, y = b["p"], b["q"]
+        pr = (x.attrs["pos"], y.attrs["pos"])
+        if tuple(sorted(pr)) in zero_pairs:
+            return 0
+        return csym[pr]
+
+    fn_c = ctx.model.fn(f"{FUNC}:_contraction")
+    sx = Symex(ctx.model, inline=_inline_except(), what="_contract_operator_string", max_paths=64,
+               hooks=_hooks(_contraction=contraction, _has_fully_contracted_contribution=lambda sx, a, kw: True))
+    sx.oracle = _Generic(lambda t: t in back)
+    outs = sx.run(f"{FUNC}:_contract_operator_string",
+                  lambda: dict(op_string=[_operator("F", _index(f"x{k}", "general"), pos=k, label=lab)
+                                          for k, lab in enumerate(labels)]))
+    if len(outs) != 1 or outs[0].kind != "return":
+        raise AnalysisError(f"R01b: evaluation of _contract_operator_string on {n} tokens gives {outs[:3]}")
+    prods = []
+    for c, fs in expand_products(strip(_term(outs[0].value), mcalls=TRANSPARENT_MCALLS)):
+        if any(f not in back for f in fs):
+            raise AnalysisError(f"R01b: unexpected factor in the result: {[show(f) for f in fs if f not in back][:2]}")
+        prods.append((c, tuple(sorted(back[f] for f in fs))))
+    return prods
+
+
+def _primes(n):
+    out, k = [], 2
+    while len(out) < n:
+        if all(k % p for p in out):
+            out.append(k)
+        k += 1
+    return out
+
+
+class _Generic:
+    """Oracle for branch atoms: the terms selected by ``is_value`` stand for generic non-zero numbers (distinct
+    primes), as sympy expressions built from symbols/deltas do; an atom over them is decided by evaluation, whatever
+    its spelling (``c is S.Zero``, ``c == 0``, ``not c``, ``-c == 0``, ``c.is_zero``); other atoms are left alone."""
+
+    def __init__(self, is_value):
+        self.is_value = is_value
+        self.values = {}
+
+    def number(self, t):
+        if is_num(t):
+            return Fraction(t)
+        if isinstance(t, T):
+            if t.op == "mul":
+                r = Fraction(1)
+                for x in t.args:
+                    r *= self.number(x)
+                return r
+            if t.op == "add":
+                return sum((self.number(x) for x in t.args), Fraction(0))
+            if t.op == "pow" and isinstance(t.args[1], int):
+                return self.number(t.args[0]) ** t.args[1]
+            if self.is_value(t):
+                if t not in self.values:
+                    self.values[t] = _primes(len(self.values) + 1)[-1]
+                return Fraction(self.values[t])
+        raise _Uneval(show(t))
+
+    def __call__(self, sx, atom):
+        try:
+            if atom.op == "cmp" and atom.args[0] in ("==", "!=", "<", "<=", "is", "is not"):
+                a, b = self.number(atom.args[1]), self.number(atom.args[2])
+                return {"==": a == b, "is": a == b, "!=": a != b, "is not": a != b, "<": a < b, "<=": a <= b}[atom.args[0]]
+            if atom.op == "attr" and atom.args[1] in ("is_zero", "is_nonzero"):
+                z = self.number(atom.args[0]) == 0
+                return z if atom.args[1] == "is_zero" else not z
+            return self.number(atom) != 0
+        except _Uneval:
+            return None
+
+
+def _pairing_verdict(got, want):
+    if got == want:
+        return ""
+    gd, wd = dict(got), dict(want)
+    if len(got) != len(set(p for p, _ in got)):
+        return "a complete pairing is produced more than once"
+    if set(gd) != set(wd):
+        miss = sorted(set(wd) - set(gd))[:2]
+        extra = sorted(set(gd) - set(wd))[:2]
+        return f"pairings missing {miss} / spurious {extra}"
+    bad = [p for p in wd if gd[p] != wd[p]][:2]
+    return f"wrong sign for pairing(s) {bad} (sign must be (-1)^crossings)"
+
+
 def r01b(ctx):
-    fn = ctx.model.fn("func:_contract_operator_string")
+    rule = "R01b"
+    fn = ctx.model.fn(f"{FUNC}:_contract_operator_string")
     sizes = [2, 4, 6] if ctx.tier == "quick" else [2, 4, 6, 8]
 
-    def run(ops, zero_pairs=frozenset()):
-        def contraction(i, n, a, kw):
-            x, y = a
-            if (x.attrs["pos"], y.attrs["pos"]) in zero_pairs:
-                return ZERO
-            return Sym("c", (x.attrs["pos"], y.attrs["pos"]))
-
-        def recurse(i, n, a, kw):
-            kind, val = Interp(env, what="_contract_operator_string").call(
-                fn, {"op_string": a[0]})
-            if kind == "raise":
-                raise AnalysisError(f"R01b: recursion raised {val}")
-            return val
-
-        def add(i, n, a, kw):
-            return Sym("Add", a) if a else ZERO
-        env = {"_has_fully_contracted_contribution": lambda i, n, a, kw: True,
-               "_contraction": contraction, "S": S, "Add": add,
-               "_contract_operator_string": recurse}
-        kind, val = Interp(env, what="_contract_operator_string").call(
-            fn, {"op_string": ops})
-        if kind == "raise":
-            raise AnalysisError(f"R01b: evaluation raised {val}")
-        return val
+    def want_for(n, zero=frozenset()):
+        return sorted((tuple(sorted(p)), (-1) ** _crossings(p)) for p in _pairings(list(range(n)))
+                      if not any(pr in zero for pr in p))
 
     for n in sizes:
-        ops = [Rec("op", pos=k) for k in range(n)]
-        got = sorted((tuple(sorted(p)), s) for s, p in _expand(run(ops)))
-        want = sorted((tuple(sorted(p)), (-1) ** _crossings(p))
-                      for p in _pairings(list(range(n))))
-        ok = got == want
-        reason = ""
-        if not ok:
-            gd, wd = dict(got), dict(want)
-            if len(got) != len(set(p for p, _ in got)):
-                reason = "a complete pairing is produced more than once"
-            elif set(gd) != set(wd):
-                miss = sorted(set(wd) - set(gd))[:2]
-                extra = sorted(set(gd) - set(wd))[:2]
-                reason = f"pairings missing {miss} / spurious {extra}"
-            else:
-                bad = [p for p in wd if gd[p] != wd[p]][:2]
-                reason = f"wrong sign for pairing(s) {bad} (sign must be (-1)^crossings)"
-        ctx.check("R01b", fn, ok, f"n={n}: {len(want)} complete pairings, each once, "
-                  "sign (-1)^crossings", f"n={n}: {reason}", key=f"pairings n={n}")
+        got = sorted((p, s) for s, p in _pair_products(ctx, list(range(n))))
+        want = want_for(n)
+        ctx.check(rule, fn, got == want, f"n={n}: {len(want)} complete pairings, each once, sign (-1)^crossings",
+                  f"n={n}: {_pairing_verdict(got, want)}", key=f"pairings n={n}")
     # the same operator may occur several times in a string (equal objects at different positions):
     # the bookkeeping must go by position, not by value
     for labels in (["A", "B", "A", "B"], ["A", "A", "B", "B", "A", "B"]):
-        ops = [Rec("op", pos=k, _eqkey=lab) for k, lab in enumerate(labels)]
         n = len(labels)
-        got = sorted((tuple(sorted(p)), s) for s, p in _expand(run(ops)))
-        want = sorted((tuple(sorted(p)), (-1) ** _crossings(p)) for p in _pairings(list(range(n))))
-        ctx.check("R01b", fn, got == want, f"repeated operators {labels}: pairings by position",
-                  f"operator string with repeated (equal) operators {labels}: complete pairings are "
-                  f"{[p for p, _ in got][:4]}..., expected every pairing of positions once", key=f"repeated {''.join(labels)}")
+        got = sorted((p, s) for s, p in _pair_products(ctx, labels))
+        want = want_for(n)
+        ctx.check(rule, fn, got == want, f"repeated operators {labels}: pairings by position",
+                  f"operator string with repeated (equal) operators {labels}: {_pairing_verdict(got, want)}; complete pairings "
+                  f"are {[p for p, _ in got][:4]}..., expected every pairing of positions once", key=f"repeated {''.join(labels)}")
     # a vanishing contraction must remove exactly the pairings containing it
-    ops = [Rec("op", pos=k) for k in range(4)]
-    got = sorted(tuple(sorted(p)) for s, p in _expand(run(ops, frozenset({(0, 2)}))))
-    want = sorted(tuple(sorted(p)) for p in _pairings([0, 1, 2, 3]) if (0, 2) not in p)
-    ctx.check("R01b", fn, got == want, "zero contraction (0,2) removes exactly its pairings",
-              f"with contraction(0,2)=0 the result has pairings {got}, expected {want}",
-              key="zero skip")
-    # the prefilter answer False must give zero, and the prefilter is consulted
-    uses = [c for c in calls_in(fn) if call_name(c) == "_has_fully_contracted_contribution"]
-    ctx.check("R01b", fn, len(uses) >= 1, "prefilter consulted",
-              "prefilter _has_fully_contracted_contribution no longer consulted",
-              key="prefilter use")
+    for n, zero in ((4, frozenset({(0, 2)})), (6, frozenset({(0, 3), (1, 2)}))):
+        got = sorted((p, s) for s, p in _pair_products(ctx, list(range(n)), zero))
+        want = want_for(n, zero)
+        ctx.check(rule, fn, got == want, f"n={n}: zero contraction(s) {sorted(zero)} remove exactly their pairings",
+                  f"with contraction{sorted(zero)}=0 the result has the pairings {got}, expected {want}",
+                  key="zero skip" if n == 4 else f"zero skip n={n}")
 
 
-# ------------------------------------------------------------------ R01c
-
-
-def _indices_base(ctx):
-    cls = ctx.model.cls("indices:Indices")
-    for s in cls.body:
-        if isinstance(s, ast.Assign) and any(U(t) == "base" for t in s.targets):
-            try:
-                d = ast.literal_eval(s.value)
-            except Exception:
-                raise AnalysisError("Indices.base is not a literal dict")
-            return d
-    raise AnalysisError("Indices.base not found")
+# ---------------------------------------------------------------------------
+# R01c
 
 
 def _has_matching(creators, annihilators):
@@ -280,200 +505,516 @@ def _has_matching(creators, annihilators):
     return False
 
 
+def _class_attr(ctx, mod, cls, attr):
+    """Value of a class attribute as the evaluator sees it."""
+    sx = Symex(ctx.model, what=f"{cls}.{attr}")
+    sx.prefix, sx.decisions, sx.facts, sx.path, sx.effects = [], [], {}, [], []
+    sx.steps, sx.depth, sx.frames, sx.module = 0, 0, [{}], ctx.model.module(mod)
+    return sx.getattr(ClassRef(ctx.model.module(mod), cls), attr, None)
+
+
 def r01c(ctx):
-    fn = ctx.model.fn("func:_has_fully_contracted_contribution")
-    base = _indices_base(ctx)
-    ctx.check("R01c", ctx.model.cls("indices:Indices"),
-              set(base) == {"occ", "virt", "general"},
-              "Indices.base has the three spaces", f"Indices.base keys {sorted(base)}",
-              key="base keys")
-    env = {"Fd": klass("Fd"), "F": klass("F"),
-           "Indices": Rec("Indices", base=base)}
-    spaces = ["occ", "virt", "general"]
+    rule = "R01c"
+    fn = ctx.model.fn(f"{FUNC}:_has_fully_contracted_contribution")
+    base = _class_attr(ctx, "indices", "Indices", "base")
+    ctx.check(rule, ctx.model.cls("indices:Indices"), isinstance(base, dict) and set(base) == set(SPACES),
+              "Indices.base has the three spaces", f"Indices.base is {show(base)[:120]}", key="base keys")
+    sx = Symex(ctx.model, inline=_inline_except(), hooks=_hooks(), what="_has_fully_contracted_contribution")
+    orders = ["creators first", "reversed"] if ctx.tier == "quick" else ["creators first", "reversed", "interleaved"]
     bad = 0
     n = 0
     for counts in itertools.product(range(3), repeat=6):
-        creators = sum(([s] * c for s, c in zip(spaces, counts[:3])), [])
-        annihilators = sum(([s] * c for s, c in zip(spaces, counts[3:])), [])
-        ops = [_op("Fd", s) for s in creators] + [_op("F", s) for s in annihilators]
-        kind, val = Interp(env, what="_has_fully_contracted_contribution").call(
-            fn, {"op_string": ops})
-        n += 1
-        if kind == "raise":
-            raise AnalysisError(f"R01c: prefilter raised {val} on {counts}")
-        if not val and _has_matching(creators, annihilators):
-            bad += 1
-            if bad <= 3:
-                ctx.bad("R01c", fn, "prefilter answers False although creators "
-                        f"{creators} and annihilators {annihilators} admit a complete "
-                        "contraction", key=f"counts {counts}")
-        else:
-            ctx.ok("R01c", fn, f"counts {counts}: answer {bool(val)} sound")
-    # reversed order of the string must not matter for a counting filter
-    return n
+        creators = sum(([s] * c for s, c in zip(SPACES, counts[:3])), [])
+        annihilators = sum(([s] * c for s, c in zip(SPACES, counts[3:])), [])
+        seq = [("Fd", s) for s in creators] + [("F", s) for s in annihilators]
+        for order in orders:
+            if order == "reversed":
+                seq2 = seq[::-1]
+            elif order == "interleaved":
+                seq2 = seq[::2] + seq[1::2]
+            else:
+                seq2 = seq
+            outs = sx.run(fn, lambda: dict(op_string=[_operator(k, _index(f"x{i}", s), pos=i)
+                                                      for i, (k, s) in enumerate(seq2)]))
+            n += 1
+            if len(outs) != 1 or outs[0].kind != "return" or isinstance(outs[0].value, T):
+                raise AnalysisError(f"R01c: prefilter on {counts} ({order}) gives {outs[:2]}")
+            val = bool(outs[0].value)
+            if not val and _has_matching(creators, annihilators):
+                bad += 1
+                if bad <= 3:
+                    ctx.bad(rule, fn, f"prefilter answers False although creators {creators} and annihilators {annihilators} "
+                            f"admit a complete contraction ({order})", key=f"counts {counts}")
+            else:
+                ctx.ok(rule, fn, f"counts {counts} {order}: answer {val} sound")
+    ctx.floor(rule, "operator strings given to the prefilter", n, 2 * 729)
 
 
-# ------------------------------------------------------------------ R01d
+# ---------------------------------------------------------------------------
+# R01d: Rules.apply and Rules.is_empty
 
 
-def r01d(ctx):
+def _rules_self(fb):
+    return Obj("rules:Rules", "self", _forbidden_blocks=fb)
+
+
+def _expr_obj(terms, assumptions):
+    return Obj("expr_container:Expr", "expr", terms=terms, assumptions=dict(assumptions),
+               _classes=("Expr", "Container"))
+
+
+def _tensor_obj(tname, space, tag):
+    o = Obj(None, tag, space=space)
+    o.attrs["name"] = tname
+    return o
+
+
+def r01d_apply(ctx):
+    rule = "R01d"
     fn = ctx.model.fn("rules:Rules.apply")
-    loops = [n for n in walk_fn(fn, nested=False) if isinstance(n, ast.For)]
-    loops = [l for l in loops if U(l.iter).endswith(".terms")]
-    ctx.floor("R01d", "term loops in Rules.apply", len(loops), 1)
-    loop = loops[0]
-    term = U(loop.target)
-    res, drops = common.loop_conservation(ctx, "R01d", fn, loop, term)
-    defs = Defs(fn)
-    from ..pathcond import atoms
+    sx = Symex(ctx.model, inline=_inline_except(), hooks={}, what="Rules.apply", max_steps=2000000)
+    sx.on_start = _assume_not_none("expr", "self")
+    blocks = ("oo", "ov", "vo", "vv")
+    rule_sets = [{"f": ["ov", "vo"], "d": ["oo"]}, {"d": ["vv", "ov"], "x": ["ov"], "f": []}, {"f": ["oo"]}]
+    n = 0
+    for fb in rule_sets:
+        names = ("f", "d", "x")
+        combos = [((a, b),) for a in names for b in blocks] + \
+                 [((a, b), (c, d)) for a in names for b in blocks for c in names for d in blocks]
+        assumptions = {"real": True, "sym_tensors": ("d",)}
 
-    def forbidden_test(guard):
-        """`any(obj.name in FB and obj.space in FB[obj.name] for obj in term.objects)`"""
-        guard = defs.resolve(guard)
-        if not (isinstance(guard, ast.Call) and call_name(guard) == "any" and guard.args
-                and isinstance(guard.args[0], (ast.GeneratorExp, ast.ListComp))):
-            return False
-        g = guard.args[0]
-        gen = g.generators[0]
-        obj = U(gen.target)
-        if not (U(gen.iter) == f"{term}.objects" and not gen.ifs and len(g.generators) == 1):
-            return False
-        at = set(atoms(g.elt, True))
-        fb = None
-        for t, pol in at:
-            if t.startswith(f"{obj}.name in ") and pol:
-                fb = t[len(f"{obj}.name in "):]
-        need = {(f"{obj}.name in {fb}", True), (f"{obj}.space in {fb}[{obj}.name]", True)}
-        return fb is not None and at == need
-
-    def path_is(p, pol):
-        # the decisions of the path amount to `forbidden == pol`
-        ds = []
-        for t, q in p.decisions:
-            while isinstance(t, ast.UnaryOp) and isinstance(t.op, ast.Not):
-                t, q = t.operand, not q
-            ds.append((t, q))
-        return len(ds) == 1 and ds[0][1] == pol and forbidden_test(ds[0][0])
-    ctx.floor("R01d", "drop paths in Rules.apply", len(drops), 1)
-    for p in drops:
-        ctx.check("R01d", p.exit_node or loop, path_is(p, True),
-                  "term dropped iff an object has a forbidden (name, block)",
-                  f"a term is dropped on path [{common.path_desc(p)}]; the only admissible drop "
-                  "condition is: some object has its name in the forbidden dict AND its block "
-                  "in the forbidden list of that name", key="drop condition")
-    adds = [p for p in common.enum_paths(loop.body, common.acc_event(term)) if len(p.events) == 1]
-    for p in adds:
-        ctx.check("R01d", loop, path_is(p, False), "term kept iff no object is forbidden",
-                  f"a term is kept on path [{common.path_desc(p)}] which is not the negation of "
-                  "the forbidden-block test", key="keep condition")
-    rets = [n for n in walk_fn(fn, nested=False) if isinstance(n, ast.Return)]
+        def mk():
+            terms = []
+            for k, objs in enumerate(combos):
+                terms.append(Obj(None, f"t{k}", objects=[_tensor_obj(nm, sp, f"t{k}.o{j}") for j, (nm, sp) in enumerate(objs)]))
+            return dict(self=_rules_self({k: list(v) for k, v in fb.items()}), expr=_expr_obj(terms, assumptions))
+        outs = sx.run(fn, mk)
+        what = f"rules {fb}"
+        if len(outs) != 1 or outs[0].kind != "return":
+            ctx.bad(rule, fn, f"{what}: evaluation gives {outs[:2]}", key=f"apply shape {sorted(fb)}")
+            continue
+        parts = expand_products(_term(outs[0].value))
+        kept, base = [], []
+        for c, fs in parts:
+            if c == 1 and len(fs) == 1 and fs[0].op == "sym" and str(fs[0].args[0]).startswith("t"):
+                kept.append(int(str(fs[0].args[0])[1:]))
+            else:
+                base.append((c, fs))
+        want = [k for k, objs in enumerate(combos) if not any(nm in fb and sp in fb[nm] for nm, sp in objs)]
+        wrongly_dropped = sorted(set(want) - set(kept))
+        wrongly_kept = sorted(set(kept) - set(want))
+        dup = sorted({k for k in kept if kept.count(k) > 1})
+        n += len(combos)
+        ctx.check(rule, fn, not wrongly_dropped, f"{what}: no term without an excluded block is removed",
+                  f"{what}: the term with the tensors {combos[wrongly_dropped[0]] if wrongly_dropped else ''} is removed although "
+                  "none of its tensors sits in a block excluded for that tensor (a term may only be dropped if some object has "
+                  "its name in the forbidden dict AND its block in the forbidden list of that name)", key=f"drop condition {sorted(fb)}")
+        ctx.check(rule, fn, not wrongly_kept, f"{what}: every term with an excluded block is removed",
+                  f"{what}: the term with the tensors {combos[wrongly_kept[0]] if wrongly_kept else ''} is kept although it contains "
+                  "an excluded tensor block", key=f"keep condition {sorted(fb)}")
+        ctx.check(rule, fn, not dup, f"{what}: kept terms added once",
+                  f"{what}: term(s) {dup[:3]} are added more than once", key=f"once {sorted(fb)}")
+        # the accumulator: zero with the assumptions of the input
+        okb = len(base) == 1 and base[0][0] == 1 and len(base[0][1]) == 1 and base[0][1][0].op == "call" \
+            and base[0][1][0].args[0] == "Expr"
+        if okb:
+            a = args_of(base[0][1][0])
+            first = a.get("e", a.get(0))
+            rest = {k: v for k, v in a.items() if k not in ("e", 0) and v is not None and v is not False}
+            okb = first == 0 and rest == assumptions
+        ctx.check(rule, fn, okb, f"{what}: result starts from Expr(0) with the assumptions of the input",
+                  f"{what}: besides the kept terms the result consists of {[show(t_mul(c, *fs))[:120] for c, fs in base]}, expected "
+                  f"Expr(0, **{assumptions})", key=f"return acc {sorted(fb)}")
+    ctx.floor(rule, "terms pushed through Rules.apply", n, 300)
     # empty rules: identity
-    empties = [r for r in rets if ("self.is_empty", True) in conditions(r)]
-    for r in empties:
-        ctx.check("R01d", r, U(r.value) == U(fn.args.args[1].arg), "empty rules return the input",
-                  "empty rules do not return the input expression", key="empty rules")
-    last = rets[-1]
-    ctx.check("R01d", last, res is not None and U(last.value) == res,
-              "accumulator returned", "the accumulator is not what is returned",
-              key="return acc")
-    ie = ctx.model.fn("rules:Rules.is_empty")
-    r = [n for n in walk_fn(ie) if isinstance(n, ast.Return)]
-    ctx.check("R01d", ie, len(r) == 1 and U(r[0].value) in (
-        "not bool(self._forbidden_blocks)", "not self._forbidden_blocks"),
-        "is_empty == no forbidden blocks", f"is_empty returns `{U(r[0].value) if r else None}`",
-        key="is_empty")
+    for fb in (None, {}):
+        holder = {}
 
-    # ---- wicks
-    w = ctx.model.fn("func:wicks")
-    rets = [n for n in walk_fn(w, nested=False) if isinstance(n, ast.Return)]
-    apply_calls = [c for c in calls_in(w) if U(c.func) == "rules.apply"]
-    ctx.check("R01d", w, len(apply_calls) == 1 and isinstance(apply_calls[0]._parent, (ast.Attribute, ast.Return)),
-              "rules.apply(Expr(result)) is the final return", "rules.apply is not applied to the result",
-              key="apply call")
-    if apply_calls:
-        c = apply_calls[0]
-        arg = c.args[0] if c.args else None
-        ctx.check("R01d", c, arg is not None and isinstance(arg, ast.Call)
-                  and call_name(arg) == "Expr" and U(arg.args[0]) == "result",
-                  "rules applied to `result`", f"rules applied to `{U(arg)}`", key="apply arg")
-        cs = conditions(c)
-        ctx.check("R01d", c, ("rules is None", False) in cs, "apply reached only when rules given",
-                  "rules.apply not dominated by `rules is not None`", key="apply guard")
-    for r in rets:
-        v = U(r.value)
-        kind = None
-        if v == "S.Zero":
-            kind = "zero"
-        elif v == "result" and ("rules is None", True) in conditions(r):
-            kind = "no rules"
-        elif "rules.apply(" in v:
-            kind = "rules applied"
-        elif isinstance(r.value, ast.Call) and call_name(r.value) == "Add" and "wicks(" in v:
-            kind = "sum of recursive results"
-        ctx.check("R01d", r, kind is not None, f"return: {kind}",
-                  f"`return {v}` leaves wicks without passing the block-exclusion rules (only zero, the recursive sum, and the "
-                  "result without rules may bypass rules.apply)", key=f"return {v[:40]}")
-    # rules is None -> return result
-    for r in rets:
-        cs = conditions(r)
-        if ("rules is None", True) in cs:
-            ctx.check("R01d", r, U(r.value) == "result", "no rules: result returned unchanged",
-                      f"no rules: returns `{U(r.value)}`", key="no rules")
-    # commuting part split and multiplication back
-    appends = [c for c in calls_in(w) if call_name(c) == "append"]
-    cpart = [c for c in appends if U(c.func.value) == "c_part"]
-    ops = [c for c in appends if U(c.func.value) == "op_string"]
-    ctx.floor("R01d", "c_part/op_string appends in wicks", len(cpart) + len(ops), 2)
-    for c in cpart:
-        a = U(c.args[0])
-        ctx.check("R01d", c, (f"{a}.is_commutative", True) in conditions(c),
-                  "commuting factors go to c_part", "c_part receives a factor not known to commute",
-                  key="c_part guard")
-    for c in ops:
-        a = U(c.args[0])
-        ctx.check("R01d", c, (f"{a}.is_commutative", False) in conditions(c),
-                  "non-commuting factors go to op_string", "op_string receives a commuting factor",
-                  key="op_string guard")
-    contr = [c for c in calls_in(w) if call_name(c) == "_contract_operator_string"]
-    ctx.floor("R01d", "_contract_operator_string calls in wicks", len(contr), 1)
-    for c in contr:
-        ctx.check("R01d", c, U(c.args[0]) == "op_string", "whole operator string contracted",
-                  f"contracts `{U(c.args[0])}`", key="contract arg")
-    # result = (Mul(*c_part) * result)
-    mulback = [n for n in walk_fn(w) if isinstance(n, ast.BinOp) and isinstance(n.op, ast.Mult)
-               and {U(n.left), U(n.right)} == {"Mul(*c_part)", "result"}]
-    ctx.check("R01d", w, len(mulback) == 1, "commuting part multiplied back once",
-              "commuting part is not multiplied back onto the contraction result",
-              key="mulback")
-    # single operator / NO / FermionicOperator -> zero ; Add branch maps over args
-    z = [r for r in rets if U(r.value) == "S.Zero"]
-    ok_n1 = any(("n == 1", True) in conditions(r) or ("len(op_string) == 1", True) in conditions(r)
-                for r in z)
-    ctx.check("R01d", w, ok_n1, "single operator gives zero", "single-operator branch missing",
-              key="single op")
-    addret = [r for r in rets if ("isinstance(expr, Add)", True) in conditions(r)]
-    ok = False
-    for r in addret:
-        v = r.value
-        if isinstance(v, ast.Call) and call_name(v) == "Add" and v.args and isinstance(v.args[0], ast.Starred):
-            g = v.args[0].value
-            if isinstance(g, (ast.ListComp, ast.GeneratorExp)) and U(g.generators[0].iter) == "expr.args" \
-                    and not g.generators[0].ifs and isinstance(g.elt, ast.Call) and call_name(g.elt) == "wicks":
-                t = U(g.generators[0].target)
-                e = g.elt
-                ok = (U(e.args[0]) == t and U(kwarg(e, "rules", 1)) == "rules"
-                      and U(kwarg(e, "simplify_kronecker_deltas", 2)) == "simplify_kronecker_deltas")
-    ctx.check("R01d", w, ok, "Add: wicks of every argument with the same rules/flags",
-              "Add branch does not map wicks(term, rules, simplify flag) over all args",
-              key="add branch")
-    # delta evaluation only on request, on the result
-    ev = [c for c in calls_in(w) if call_name(c) == "evaluate_deltas"]
-    for c in ev:
-        ctx.check("R01d", c, ("simplify_kronecker_deltas", True) in conditions(c)
-                  and U(c.args[0]) == "result" and len(c.args) + len(c.keywords) == 1,
-                  "deltas evaluated only on request, Einstein targets",
-                  "evaluate_deltas call not guarded by the flag or with wrong arguments",
-                  key="delta flag")
+        def mk():
+            holder["expr"] = _expr_obj([Obj(None, "t0", objects=[_tensor_obj("f", "ov", "t0.o0")])], {})
+            return dict(self=_rules_self(fb), expr=holder["expr"])
+        outs = sx.run(fn, mk)
+        ctx.check(rule, fn, len(outs) == 1 and outs[0].kind == "return" and outs[0].value is holder["expr"],
+                  f"empty rules ({fb}) return the input", f"empty rules ({fb}) do not return the input expression: {outs[:2]}",
+                  key=f"empty rules {fb}")
+    # the guard on the input type
+    outs = sx.run(fn, lambda: dict(self=_rules_self({"f": ["ov"]}), expr=Obj(None, "expr", _classes=("Mul",), terms=[],
+                                                                          assumptions={})))
+    ctx.check(rule, fn, all(o.kind == "raise" for o in outs), "a plain sympy object is refused",
+              f"Rules.apply accepts an expression that is not an Expr: {outs[:2]}", key="apply input guard")
+    ie = ctx.model.fn("rules:Rules.is_empty")
+    for fb, want in ((None, True), ({}, True), ({"f": ["ov"]}, False), ({"f": []}, False)):
+        o2 = Symex(ctx.model, inline=_inline_except(), what="Rules.is_empty").run(ie, lambda: dict(self=_rules_self(fb)))
+        ctx.check(rule, ie, len(o2) == 1 and o2[0].kind == "return" and o2[0].value is want,
+                  f"is_empty({fb}) is {want}", f"is_empty with forbidden blocks {fb} gives {o2[:2]}, expected {want}",
+                  key="is_empty" if fb == {"f": ["ov"]} else f"is_empty {fb}")
+
+
+# ---------------------------------------------------------------------------
+# R01d: wicks on abstract sympy expressions
+
+
+class _WicksScenario:
+    """``expr.doit(wicks=True).expand()`` gives ``expanded`` (an abstract Add / Mul / other object)."""
+
+    def __init__(self, kind, n_ops=0, n_c=0, top=("Mul",), terms=3):
+        self.kind, self.n_ops, self.n_c, self.top, self.terms = kind, n_ops, n_c, top, terms
+        self.doit_kw = []
+
+    def build(self):
+        ops = [_operator("Fd" if k % 2 else "F", _index(f"x{k}", "general"), pos=k) for k in range(self.n_ops)]
+        cs = [_tensor(f"A{k}") for k in range(self.n_c)]
+        # interleave commuting factors and operators
+        args = []
+        for k in range(max(len(ops), len(cs))):
+            if k < len(cs):
+                args.append(cs[k])
+            if k < len(ops):
+                args.append(ops[k])
+        commut = self.n_ops == 0
+        if self.kind == "Add":
+            X = Obj(None, "X", _classes=("Add", "Expr", "Basic"), args=[Obj(None, f"term{k}", _classes=("Mul", "Expr", "Basic"),
+                                                                           is_commutative=False) for k in range(self.terms)],
+                    is_commutative=False, is_number=False)
+        elif self.kind == "Mul":
+            X = Obj(None, "X", _classes=("Mul", "Expr", "Basic"), args=args, is_commutative=commut, is_number=False)
+        elif self.kind in KINDS:     # a bare operator: doit/expand give the operator itself
+            X = Obj(None, "X", _classes=(self.kind, "FermionicOperator", "SqOperator", "Expr", "Basic"),
+                    args=[_index("x0", "general")], is_commutative=False, is_number=False)
+        else:
+            X = Obj(None, "X", _classes=(self.kind, "Expr", "Basic"), args=[], is_commutative=True, is_number=False)
+        D = Obj(None, "D", _expanded=X, _classes=X.attrs["_classes"], is_commutative=X.attrs["is_commutative"],
+                args=X.attrs["args"], is_number=False)
+        E = Obj(None, "expr", _done=D, _classes=tuple(self.top) + ("Expr", "Basic"), is_commutative=X.attrs["is_commutative"],
+                is_number=False, args=X.attrs["args"])
+        self.X, self.ops, self.cs = X, ops, cs
+        return E
+
+    def hooks(self):
+        def doit(sx, a, kw):
+            recv = a[0]
+            if isinstance(recv, Obj) and "_done" in recv.attrs:
+                self.doit_kw.append(dict(kw))
+                return recv.attrs["_done"]
+            return NotImplemented
+
+        def expand(sx, a, kw):
+            recv = a[0]
+            if isinstance(recv, Obj) and "_expanded" in recv.attrs:
+                return recv.attrs["_expanded"]
+            if isinstance(recv, Obj) and recv is self.X or is_num(recv):
+                return recv
+            return NotImplemented
+        return _hooks(doit=doit, expand=expand)
+
+
+def _peel(v):
+    """(layers from the outside in, core): the rule application, the delta evaluation and the container
+    conversions around the core value; ``.expand()`` changes neither value nor type."""
+    layers = []
+    while True:
+        v = _term(v)
+        if isinstance(v, T) and v.op == "attr" and v.args[1] == "sympy":
+            layers.append(("sympy", None))
+            v = v.args[0]
+        elif isinstance(v, T) and v.op == "mcall" and v.args[1] in TRANSPARENT_MCALLS:
+            v = v.args[0]
+        elif isinstance(v, T) and v.op == "call" and v.args[0] == "Expr":
+            a = args_of(v)
+            layers.append(("Expr", tuple(sorted((str(k), repr(x)) for k, x in a.items() if k not in ("e", 0)
+                                                and x is not None and x is not False))))
+            v = a.get("e", a.get(0))
+        elif isinstance(v, T) and v.op == "mcall" and v.args[1] == "apply":
+            a = args_of(v)
+            layers.append(("apply", v.args[0]))
+            v = a.get("expr", a.get(0))
+        elif isinstance(v, T) and v.op == "call" and v.args[0] == "evaluate_deltas":
+            a = args_of(v)
+            layers.append(("deltas", a.get("target_idx", a.get(1))))
+            v = a.get("expr", a.get(0))
+        else:
+            return layers, v
+
+
+def _layer_types(layers):
+    """Type discipline of the layers, inside out: Expr(.) wraps a plain sympy object (without assumptions of its
+    own), rules.apply maps a container to a container, .sympy unwraps, evaluate_deltas works on plain objects.
+    Returns (type of the final value, first problem | None)."""
+    t = "sympy"
+    for kind, info in reversed(layers):
+        if kind == "Expr":
+            if t != "sympy":
+                return t, "Expr(.) of a container"
+            if info:
+                return t, f"the result is wrapped with assumptions of its own {info}"
+            t = "Expr"
+        elif kind == "apply":
+            if t != "Expr":
+                return t, "rules.apply is given a plain sympy object, not Expr(result)"
+        elif kind == "sympy":
+            if t != "Expr":
+                return t, ".sympy of a plain object"
+            t = "sympy"
+        elif kind == "deltas":
+            if t != "sympy":
+                return t, "evaluate_deltas is given a container"
+    return t, None
+
+
+def _is_zero(v):
+    v = _term(v)
+    return not expand_products(strip(v, mcalls=TRANSPARENT_MCALLS)) if isinstance(v, T) or is_num(v) else False
+
+
+def _wicks_run(ctx, scen, rules, flag):
+    fn_c = ctx.model.fn(f"{FUNC}:_contract_operator_string")
+
+    def contract(sx, a, kw):
+        # uninterpreted, except that a string with an odd number of operators has no complete contraction
+        # (decided by R01c/R01e for the code itself)
+        ops = sx.bind(fn_c, a, kw).get("op_string")
+        if isinstance(ops, (list, tuple)) and len(ops) % 2:
+            return 0
+        return NotImplemented
+    hooks = scen.hooks()
+    hooks["_contract_operator_string"] = contract
+    sx = Symex(ctx.model, what="wicks", hooks=hooks, max_paths=64,
+               inline=_inline_except("func:wicks", "func:_contract_operator_string", "func:evaluate_deltas",
+                                     "rules:Rules.apply"))
+    sx.on_start = _assume_not_none("rules", "expr", "X", "D")
+    sx.oracle = _Generic(lambda t: t.op == "call" and t.args[0] == "_contract_operator_string" or
+                         t.op == "sym" and str(t.args[0]).startswith("A"))
+
+    def args():
+        r = None if rules is None else Obj("rules:Rules", "rules") if rules == "rules" else \
+            Obj(None, "rules", _classes=("dict",))
+        return dict(expr=scen.build(), rules=r, simplify_kronecker_deltas=flag)
+    return _returns(sx.run(f"{FUNC}:wicks", args), "wicks")
+
+
+def r01d_wicks(ctx):
+    rule = "R01d"
+    w = ctx.model.fn(f"{FUNC}:wicks")
+    n = 0
+    combos = [(r, f) for r in (None, "rules") for f in (False, True)]
+    # NO / single operator: zero
+    for top in (("NO",), ("F", "FermionicOperator"), ("Fd", "FermionicOperator")):
+        for rules, flag in combos:
+            scen = _WicksScenario("Mul", 2, 0, top=top) if top[0] == "NO" else _WicksScenario(top[0], top=top)
+            outs = _wicks_run(ctx, scen, rules, flag)
+            n += 1
+            ctx.check(rule, w, all(o.kind == "return" and _is_zero(_peel(o.value)[1]) for o in outs),
+                      f"{top[0]} alone gives zero", f"wicks of a bare {top[0]} object gives {outs[:2]}, expected zero",
+                      key=f"bare {top[0]}")
+    # Mul / other
+    cases = [("Mul", k, c) for k in (0, 1, 2, 4) for c in (0, 2)] + [("Symbol", 0, 0), ("AntiSymmetricTensor", 0, 0)]
+    for kind, k, c in cases:
+        for rules, flag in combos:
+            scen = _WicksScenario(kind, k, c)
+            outs = _wicks_run(ctx, scen, rules, flag)
+            n += 1
+            what = (f"product of {k} operator(s) and {c} commuting factor(s)" if kind == "Mul" else f"a {kind}") + \
+                f", rules {'given' if rules else 'None'}, delta flag {flag}"
+            keyb = f"{kind} ops={k} c={c} rules={bool(rules)} flag={flag}"
+            for o in outs:
+                if o.kind != "return":
+                    ctx.bad(rule, w, f"wicks of {what} raises {o.exc}", key=f"raise {keyb}")
+                    continue
+                layers, core = _peel(o.value)
+                if kind == "Mul" and k == 1:
+                    ctx.check(rule, w, _is_zero(core), "single operator gives zero",
+                              f"wicks of {what} gives {show(_term(o.value))[:200]}, expected zero", key="single op")
+                    continue
+                # 1. the core value
+                if kind == "Mul" and k >= 2:
+                    contr = T("call", "_contract_operator_string", (), (("op_string", tuple(x.term for x in scen.ops)),))
+                    want = multiset([_pkey(1, [x.term for x in scen.cs] + [contr])])
+                    fact = "commuting part x contraction of the whole operator string (in order)"
+                else:
+                    want = multiset([_pkey(1, [sym("X")])])
+                    fact = "expression without operators is the result"
+                got = multiset(_pkey(c_, fs) for c_, fs in expand_products(strip(core, mcalls=TRANSPARENT_MCALLS)))
+                missing, surplus = multiset_diff(got, want)
+                if kind == "Mul" and k >= 2:
+                    cs = [x for x in subterms(core) if x.op == "call" and x.args[0] == "_contract_operator_string"]
+                    if not cs:
+                        why, key = "the operator string is not contracted", "contract arg"
+                    elif any(args_of(x).get("op_string") != tuple(y.term for y in scen.ops) for x in cs):
+                        why = (f"contracts `{show(args_of(cs[0]).get('op_string'))}` instead of the whole operator string "
+                               f"{[y.name for y in scen.ops]}")
+                        key = "contract arg"
+                    else:
+                        why, key = "commuting part is not multiplied back once onto the contraction result", "mulback"
+                    ctx.check(rule, w, not missing and not surplus, fact,
+                              f"wicks of {what}: {why}: core value {show(core)[:200]}", key=key)
+                else:
+                    ctx.check(rule, w, not missing and not surplus, fact,
+                              f"wicks of {what}: the value is {show(core)[:200]}, expected the expanded expression itself",
+                              key=f"no operators {kind}")
+                # 2. delta evaluation: only on request, only for contracted strings, Einstein targets (target_idx None)
+                dl = [x for x in layers if x[0] == "deltas"]
+                want_d = [("deltas", None)] if (flag and kind == "Mul" and k >= 2) else []
+                okd = dl == want_d or (flag and not want_d and dl == [("deltas", None)])
+                ctx.check(rule, w, okd, "deltas evaluated exactly on request, Einstein targets",
+                          f"wicks of {what}: evaluate_deltas layers {[show(x[1]) for x in dl]} (expected "
+                          f"{'one with target_idx=None' if want_d else 'none'})", key="delta flag")
+                # 3. the rules
+                al = [x for x in layers if x[0] == "apply"]
+                final, problem = _layer_types(layers)
+                order = [x[0] for x in layers]
+                if rules:
+                    oka = len(al) == 1 and al[0][1] == sym("rules")
+                    ctx.check(rule, w, oka, "result passed through rules.apply",
+                              f"wicks of {what}: `{show(_term(o.value))[:160]}` leaves wicks without passing the block-exclusion "
+                              "rules (only zero and the recursive sum may bypass rules.apply)", key=f"return {kind} ops={min(k, 2)}")
+                    if oka:
+                        ctx.check(rule, w, problem is None and final == "sympy" and "deltas" not in order[:order.index("apply")],
+                                  "rules applied to Expr(result) after the delta evaluation, plain object returned",
+                                  f"wicks of {what}: layers (outside in) are {order}: "
+                                  f"{problem or ('a container is returned' if final != 'sympy' else 'deltas evaluated after the rules')}; "
+                                  "expected rules.apply(Expr(result)).sympy", key="apply arg")
+                else:
+                    ctx.check(rule, w, not al and problem is None and final == "sympy",
+                              "no rules: result returned unchanged",
+                              f"wicks of {what}: returns {show(_term(o.value))[:160]} ({problem or 'not the plain result'})",
+                              key="no rules")
+            ctx.check(rule, w, scen.doit_kw and all(kw.get("wicks") is True for kw in scen.doit_kw),
+                      "NO objects broken up by doit(wicks=True)", f"wicks calls expr.doit with {scen.doit_kw[:2]}",
+                      key="doit wicks")
+    # Add: term-wise, same rules and flag, nothing else
+    for rules, flag in combos:
+        scen = _WicksScenario("Add", terms=3)
+        outs = _wicks_run(ctx, scen, rules, flag)
+        n += 1
+        r = None if rules is None else sym("rules")
+        want = multiset(_pkey(1, [T("call", "wicks", (), (("expr", sym(f"term{k}")), ("rules", r),
+                                                             ("simplify_kronecker_deltas", flag)))]) for k in range(3))
+        for o in outs:
+            got = multiset(_pkey(c_, fs) for c_, fs in expand_products(strip(_term(o.value), mcalls=TRANSPARENT_MCALLS))) \
+                if o.kind == "return" else {}
+            missing, surplus = multiset_diff(got, want)
+            ctx.check(rule, w, not missing and not surplus, "Add: wicks of every argument with the same rules/flags",
+                      f"Add branch (rules {'given' if rules else 'None'}, flag {flag}) does not give the sum of wicks(term, rules, "
+                      f"flag) over all terms: missing {missing[:2]}, surplus {surplus[:2]}", key="add branch")
+    # foreign rules object
+    scen = _WicksScenario("Mul", 2, 1)
+    outs = _wicks_run(ctx, scen, "foreign", False)
+    ctx.check(rule, w, all(o.kind == "raise" for o in outs), "rules of a foreign type refused",
+              f"wicks accepts a rules object that is not a Rules instance: {outs[:2]}", key="rules type guard")
+    ctx.floor(rule, "wicks scenarios", n, 50)
+
+
+def _pkey(c, fs):
+    return f"{Fraction(c)} | " + " * ".join(sorted(show(f) for f in fs if not isinstance(f, T) or f.op != "call")) + " | " + \
+        " * ".join(show(f) for f in fs if isinstance(f, T) and f.op == "call")
+
+
+# ---------------------------------------------------------------------------
+# R01e: end to end against the brute-force expectation value
+
+
+def _e2e(ctx, string, norb, repeat=None):
+    """wicks(A * o_1 ... o_n) evaluated through the whole pipeline. ``string`` = [(kind, space)];
+    ``repeat`` maps a position to an earlier position whose operator object is reused."""
+    holder = {}
+
+    def build():
+        idx = {}
+        ops = []
+        for k, (kind, sp) in enumerate(string):
+            src = (repeat or {}).get(k)
+            if src is not None and isinstance(src, int):
+                ops.append(ops[src])
+                continue
+            if src is not None:          # ("idx", position): a new operator on the index of an earlier one
+                i = idx[src[1]]
+            else:
+                i = _index(f"x{k}", sp)
+            idx[k] = i
+            ops.append(_operator(kind, i))
+        A = _tensor("A")
+        args = ops[:1] + [A] + ops[1:]
+        X = Obj(None, "X", _classes=("Mul", "Expr", "Basic"), args=args, is_commutative=False, is_number=False)
+        holder["ops"] = [(type_of(o), o.attrs["args"][0].attrs["name"], o.attrs["args"][0].attrs["space"]) for o in ops]
+        return Obj(None, "expr", _done=Obj(None, "D", _expanded=X), _classes=("Mul", "Expr", "Basic"), is_commutative=False,
+                   is_number=False, args=args)
+
+    def type_of(o):
+        return o.attrs["_classes"][0]
+
+    def doit(sx, a, kw):
+        return a[0].attrs["_done"] if isinstance(a[0], Obj) and "_done" in a[0].attrs else NotImplemented
+
+    def expand(sx, a, kw):
+        if is_num(a[0]):
+            return a[0]
+        return a[0].attrs["_expanded"] if isinstance(a[0], Obj) and "_expanded" in a[0].attrs else NotImplemented
+
+    sx = Symex(ctx.model, what="wicks (end to end)", hooks=_hooks(doit=doit, expand=expand), max_paths=64,
+               inline=_inline_except("func:evaluate_deltas", "rules:Rules.apply"))
+    sx.on_start = _assume_not_none("expr", "X", "D")
+    sx.oracle = _Generic(lambda t: t.op == "delta" or t == sym("A"))
+    outs = sx.run(f"{FUNC}:wicks", lambda: dict(expr=build(), rules=None, simplify_kronecker_deltas=False))
+    if not outs:
+        raise AnalysisError("R01e: no path through wicks")
+    for o in outs:
+        if o.kind != "return":
+            return f"raises {o.exc}"
+        why = _compare_numeric(o.value, holder["ops"], norb, factor=3, tensors={"A": 3})
+        if why:
+            return f"wicks gives {show(_term(o.value))[:200]}; {why}"
+    return None
+
+
+def r01e(ctx):
+    rule = "R01e"
+    w = ctx.model.fn(f"{FUNC}:wicks")
+    dom = list(itertools.product(KINDS, SPACES))
+    n = 0
+    shown = 0
+    for size in (1, 2, 3, 4):
+        for string in itertools.product(dom, repeat=size):
+            why = _e2e(ctx, list(string), 2)
+            n += 1
+            label = " ".join(f"{k}_{s}" for k, s in string)
+            if why is None:
+                ctx.ok(rule, w, f"<{label}> equals the expectation value", key=f"strings n={size}")
+            else:
+                shown += 1
+                if shown <= 4:
+                    ctx.bad(rule, w, f"A * <{label}>: {why}", key=f"string {label}")
+    # strings in which an operator (or an index) occurs more than once
+    rep = [([("Fd", "occ"), ("F", "occ"), ("Fd", "occ"), ("F", "occ")], {2: 0, 3: 1}),
+           ([("F", "virt"), ("Fd", "virt"), ("F", "virt"), ("Fd", "virt")], {2: 0, 3: 1}),
+           ([("Fd", "general"), ("F", "general"), ("Fd", "general"), ("F", "general")], {2: 0, 3: 1}),
+           ([("Fd", "general"), ("F", "general"), ("F", "general"), ("Fd", "general")], {2: 1, 3: 0}),
+           ([("Fd", "occ"), ("F", "occ"), ("Fd", "occ"), ("F", "occ")], {1: ("idx", 0), 3: ("idx", 2)}),
+           ([("F", "general"), ("Fd", "general"), ("Fd", "general"), ("F", "general")], {1: ("idx", 0), 3: ("idx", 2)}),
+           ([("Fd", "occ"), ("F", "occ"), ("Fd", "occ"), ("F", "occ")], {2: 0})]
+    if ctx.tier != "quick":
+        rep.append(([("Fd", "occ"), ("F", "virt"), ("Fd", "virt"), ("F", "occ"), ("Fd", "occ"), ("F", "virt"), ("Fd", "virt"),
+                     ("F", "occ")], {4: 0, 5: 1, 6: 2, 7: 3}))
+    for string, repeat in rep:
+        why = _e2e(ctx, string, 2, repeat)
+        n += 1
+        label = " ".join(f"{k}_{s}" for k, s in string) + f" repeated {repeat}"
+        ctx.check(rule, w, why is None, f"<{label}> equals the expectation value", f"A * <{label}>: {why}",
+                  key=f"repeated {label}")
+    six = [[("F", "virt"), ("Fd", "virt"), ("F", "virt"), ("Fd", "virt"), ("F", "virt"), ("Fd", "virt")],
+           [("Fd", "occ"), ("F", "virt"), ("F", "general"), ("Fd", "general"), ("Fd", "virt"), ("F", "occ")]]
+    if ctx.tier != "quick":
+        six += [[("Fd", "occ"), ("F", "occ"), ("Fd", "occ"), ("F", "occ"), ("Fd", "occ"), ("F", "occ")],
+                [("Fd", "occ"), ("Fd", "occ"), ("F", "virt"), ("Fd", "virt"), ("F", "occ"), ("F", "occ")],
+                [("F", "virt"), ("F", "virt"), ("F", "virt"), ("Fd", "virt"), ("Fd", "virt"), ("Fd", "virt")],
+                [("Fd", "general"), ("F", "general"), ("Fd", "occ"), ("F", "occ"), ("F", "virt"), ("Fd", "virt")]]
+    if True:
+        for string in six:
+            why = _e2e(ctx, string, 3)
+            n += 1
+            label = " ".join(f"{k}_{s}" for k, s in string)
+            ctx.check(rule, w, why is None, f"<{label}> equals the expectation value (3+3 orbitals)", f"A * <{label}>: {why}",
+                      key=f"six {label}")
+    ctx.floor(rule, "operator strings evaluated end to end", n, 1500)
 
 
 def run(ctx):
@@ -484,4 +1025,7 @@ def run(ctx):
     if ctx.want("R01c"):
         r01c(ctx)
     if ctx.want("R01d"):
-        r01d(ctx)
+        r01d_apply(ctx)
+        r01d_wicks(ctx)
+    if ctx.want("R01e"):
+        r01e(ctx)
